@@ -204,6 +204,24 @@ func c13(args []string) error {
 			steps = 64
 		}
 		c := geojson.NewCircle(geometry.Point{X: lon, Y: lat}, radius, steps)
+		via := "NewCircle"
+		if k%4 != 0 { // most probes go against a circle obtained through Parse (metres, kilometres, radius given as a string)
+			var text string
+			switch k % 4 {
+			case 1:
+				text, via = c.JSON(), "Parse(JSON())"
+			case 2:
+				text, via = fmt.Sprintf(`{"type":"Feature","geometry":{"type":"Point","coordinates":[%s,%s]},"properties":{"type":"Circle","radius":%s,"radius_units":"km"}}`, fnum(lon), fnum(lat), fnum(radius/1000)), "Parse(km)"
+			default:
+				text, via = fmt.Sprintf(`{"type":"Feature","properties":{"radius_units":"m","radius":"%s","type":"Circle"},"geometry":{"type":"Point","coordinates":[%s,%s]}}`, fnum(radius), fnum(lon), fnum(lat)), "Parse(string radius)"
+			}
+			po := parseOptSets[k%len(parseOptSets)]
+			if o, err := geojson.Parse(text, &po); err == nil {
+				if pc, ok := o.(*geojson.Circle); ok {
+					c = pc
+				}
+			}
+		}
 		bearing := []float64{2.8125, 47.8125, 123.4, 180 + 2.8125, 271.3, rng.Float64() * 360}[rng.Intn(6)]
 		f := []int{9990, 9995, 10005, 10010, 5000, 9000, 11000}[rng.Intn(7)]
 		if radius < 10 { // sub-10 m circles: keep a 10% margin (placing the probe is itself numeric)
@@ -212,7 +230,7 @@ func c13(args []string) error {
 		plat, plon := geo.DestinationPoint(lat, lon, radius*float64(f)/10000, bearing)
 		p := geometry.Point{X: plon, Y: plat}
 		call := calls[rng.Intn(len(calls))]
-		ev.Emit(obj{"op": "frac", "f": f, "got": call.fn(c, p), "call": call.name, "centre": []float64{lon, lat}, "radius": radius, "bearing": bearing, "src": "rec"})
+		ev.Emit(obj{"op": "frac", "f": f, "got": call.fn(c, p), "call": call.name, "centre": []float64{lon, lat}, "radius": radius, "bearing": bearing, "via": via, "src": "rec"})
 		if k%3 == 0 {
 			text := c.JSON()
 			switch k % 9 {
